@@ -18,7 +18,7 @@ func init() {
 	register(&RuleSet{
 		ID: "C12",
 		Explanation: "R1 serial agreement: in every certificate-template producer (production functions that store an x509.Certificate's SerialNumber or its Subject / Subject.SerialNumber), the certificate serial and the subject serial share one non-constant origin (related by big.Int String/SetString); a producer that works on a copy of another certificate and sets only one of the two is reported. " +
-			"R2 no-clobber: in sign/gcsca the object write inside the gate is reachable only where Storage.Exists returned false or output.AllowOverwrite returned true (ESP). " +
+			"R2 no-clobber: in sign/gcsca the object write inside the gate is reachable only where Storage.Exists returned false or output.AllowOverwrite returned true (ESP); R2b every other storage write of gcsca is the manifest write, so certificate objects cannot be written around the gate. " +
 			"R3 old key retired: rotate.Key returns nil only after the old key was destroyed or the previous primary version was found empty (ESP, with the rules of C10). " +
 			"R4 profile: NotAfter is NotBefore plus exactly RootValidDays for a CA / self-issued template and SignValidDays otherwise, per branch on IsCA / Issuer == nil; where a producer sets KeyUsage, the CA arm has IsCA=true and CertSign|CRLSign and the other arm DigitalSignature. " +
 			"R5 default serial: the rotate command stores the default serial from sign/ops.NextSigningKeySerial, which returns parsed-subject-serial + the constant 1 of the primary signing certificate. " +
@@ -292,6 +292,36 @@ func runC12(c *Ctx) {
 		}
 	}
 	c.S.Floor("R2", "no-clobber gates in sign/gcsca", 1, ng)
+	// R2b: the gate is the only way to write a certificate object — every other storage write of
+	// gcsca is the manifest write (object name = the constant ManifestObjectName)
+	if wf != nil {
+		manifestName := ""
+		if pk := c.P.Pkg("sign/gcsca"); pk != nil {
+			if k, ok := pk.Pkg.Scope().Lookup("ManifestObjectName").(*types.Const); ok && k.Val().Kind() == constant.String {
+				manifestName = constant.StringVal(k.Val())
+			}
+		}
+		nW := 0
+		for _, f := range c.P.RepoFunctions() {
+			if load.RelPkg(f) != "sign/gcsca" || c.isTestFunc(f) {
+				continue
+			}
+			inGate := len(callsIn(f, func(call ssa.CallInstruction) bool { return invokeIs(call, storPkg, "Client", "Exists") })) > 0
+			for _, call := range callsIn(f, func(call ssa.CallInstruction) bool {
+				return call.Common().StaticCallee() == wf || invokeIs(call, storPkg, "Client", "Writer")
+			}) {
+				nW++
+				isManifest := false
+				if call.Common().StaticCallee() == wf && len(call.Common().Args) >= 4 {
+					if k, ok := call.Common().Args[3].(*ssa.Const); ok && k.Value != nil && k.Value.Kind() == constant.String && manifestName != "" && constant.StringVal(k.Value) == manifestName {
+						isManifest = true
+					}
+				}
+				c.S.Check(inGate || isManifest, "R2b", load.FuncName(f)+":object write", c.pos(call.Pos()), "certificate objects are written only inside the no-clobber gate", "a stored object other than the manifest is written outside the no-clobber gate: an existing certificate can be replaced without overwrite permission")
+			}
+		}
+		c.S.Floor("R2b", "storage writes in sign/gcsca", 2, nW)
+	}
 
 	// ---------------- R3 (with C10's rules) ----------------
 	{
